@@ -214,20 +214,35 @@ def run(ctx):
         qlines = {l.split(" ", 1)[0]: l.split()[1:] for l in res.lines if l.startswith("Q")}
         for bi, b in enumerate(info["bufs"]):
             got = qlines.get("Q%d" % bi)
-            if got is None or len(got) != len(info["oracle"]):
+            if got is None or len(got) != 2 * len(info["oracle"]):
                 continue
-            for g, (nm, off, size, kind, order) in zip(got, info["oracle"]):
-                want = oracle_value(b, off, size, kind, order)
-                if want is None:
-                    continue
+            # values of the unconditional unsigned fields that the buffer holds completely (for the conditions)
+            env = {}
+            for (nm, off, size, kind, order, cond) in info["oracle"]:
+                if cond is None and kind == "UInt" and len(b) >= off + size:
+                    env[nm] = int(oracle_value(b, off, size, kind, order))
+            if info["pvals"]:
+                env["tp"] = info["pvals"][0]
+            for k, (nm, off, size, kind, order, cond) in enumerate(info["oracle"]):
+                g_has, g = got[2 * k], got[2 * k + 1]
+                if cond is None:
+                    present = True
+                else:
+                    try:
+                        present = bool(eval(cond.replace("&&", " and ").replace("||", " or "), {"__builtins__": {}}, dict(env)))
+                    except NameError:
+                        continue            # a field of the condition is not readable (or not in the oracle): not compared
+                want_has = "1" if present else "0"
+                want = oracle_value(b, off, size, kind, order) if present else "x"
                 n_oracle += 1
-                if g != want:
+                if g_has != want_has or (want is not None and g != want):
                     n_oracle_bad += 1
                     if n_oracle_bad <= 3:
-                        ctx.violation("view-oracle", "field %s (%s, %d bytes at %d, %s): generated code reads %s, the .emb text designates %s"
-                                      % (nm, kind, size, off, order, g, want),
-                                      dict(kind="view", module=info["text"], buffer=b, field=nm, observed=g, expected=want), found_input=True)
-    ctx.obligation("spec: %d scalar reads of generated views equal the by-construction oracle (offset, width, kind, effective byte order)" % n_oracle,
+                        ctx.violation("view-oracle", "field %s (%s, %d bytes at %d, %s%s): generated code reports has=%s value=%s, the .emb text designates has=%s value=%s"
+                                      % (nm, kind, size, off, order, ", if " + cond if cond else "", g_has, g, want_has, want),
+                                      dict(kind="view", module=info["text"], buffer=b, field=nm, observed=[g_has, g], expected=[want_has, want]),
+                                      found_input=True)
+    ctx.obligation("spec: %d (field, buffer) observations of generated views equal the by-construction oracle (existence condition, offset, width, kind, effective byte order)" % n_oracle,
                    n_oracle > 0 and n_oracle_bad == 0)
     stable_cases = []
     kk = 0
